@@ -145,6 +145,9 @@ var root string
 // hashTree materialises the tree in a fresh directory under the working root and hashes it with a fresh hasher.
 var seq int
 
+// hashFailures: error kind -> first (smallest) tree for which PathHasher.Hash returned an error.
+var hashFailures = map[string]string{}
+
 func hashTree(n *tree.Node, algo string, xattrs bool) string {
 	seq++
 	base := filepath.Join("src", fmt.Sprintf("t%d", seq))
@@ -164,7 +167,18 @@ func hashTree(n *tree.Node, algo string, xattrs bool) string {
 	h := fs.NewPathHasher(root, xattrs, algos[algo], algo)
 	b, err := h.Hash(p, false, true, false)
 	if err != nil {
-		lib.Fatal("Hash(%s) of %s: %s", p, n.Canon(), err)
+		// a well-formed tree that cannot be hashed at all: recorded and reported as a violation of its own class
+		kind := "other"
+		switch {
+		case os.IsNotExist(err):
+			kind = "no-such-file(dangling-or-skipped-entry)"
+		case os.IsPermission(err):
+			kind = "permission"
+		}
+		if _, ok := hashFailures[kind]; !ok {
+			hashFailures[kind] = n.Canon() + ": " + err.Error()
+		}
+		return "HASH-ERROR:" + n.Canon()
 	}
 	// Asking again (memoised) and with a second fresh hasher (reads the stored xattr when enabled) must agree.
 	b2, err2 := h.Hash(filepath.Join(root, p), false, true, false)
@@ -311,6 +325,9 @@ func main() {
 		}
 	}
 	cleanup()
+	for kind, first := range hashFailures {
+		r.Violate("pathhash:hash-fails:"+kind, map[string]any{"tree_and_error": first}, "PathHasher.Hash returns an error for a well-formed tree (no hash is recorded, so the tree cannot be told apart from anything): "+first)
+	}
 	r.Finish(lib.Coverage{
 		Evaluations:        pairs,
 		DistinctNontrivial: pairs,
